@@ -13,10 +13,10 @@ pub fn prop() -> Prop {
     Prop {
         id: "C13",
         level: "model_checking",
-        rule: "(a) every alias of every function against the canonical name on every documented example and on every argument tuple (arity <=3) over 6 atoms of all types; (b) 48 expressions (a third reading :v, @m, a selected name or ^ after --split-by) as --select (first and later), --filter, --sort-by (both directions), --group-by, --split-by, --set macro and --set variable, the late positions also behind another --select over all sequences of <=3 (thorough <=4) values over 5 records; (c) 40 expressions, and 22 big ones (nesting depth 9..65, 9..130 arguments, literals and names of 31..300 characters), in 14 spellings (separators blank, comma, comma-blank, two blanks, tab, newline; padding before the closing parenthesis; leading-dot sugar; a comma directly after a variable, macro, key, number, string) (d) --regular-expression-cache-size in {0,1,2,64} x all sequences of <=2 (thorough <=3) (subject, pattern) pairs over 4 subjects x 6 patterns and of <=4 (thorough <=5) over a 12-pair core (one invalid pattern; two pairs whose pattern+subject texts glue to the same string) through match and extract_regex_group, and sequences with 0/1/2/7 more distinct patterns than a cache of 2/3/16/64 holds, each revisited; non-trivial = the compared forms differ textually and the value is not nothing; distinct by construction",
+        rule: "(a) every alias of every function against the canonical name on every documented example and on every argument tuple (arity <=3) over 6 atoms of all types; (b) 48 expressions (a third reading :v, @m, a selected name or ^ after --split-by) as --select (first and later), --filter, --sort-by (both directions), --group-by, --split-by, --set macro and --set variable, the late positions also behind another --select over all sequences of <=3 (thorough <=4) values over 5 records, and over 700 records for the expressions reading variables and macros; (c) 40 expressions, and 22 big ones (nesting depth 9..65, 9..130 arguments, literals and names of 31..300 characters), in 14 spellings (separators blank, comma, comma-blank, two blanks, tab, newline; padding before the closing parenthesis; leading-dot sugar; a comma directly after a variable, macro, key, number, string) (d) --regular-expression-cache-size in {0,1,2,64} x all sequences of <=2 (thorough <=3) (subject, pattern) pairs over 4 subjects x 6 patterns and of <=4 (thorough <=5) over a 12-pair core (one invalid pattern; two pairs whose pattern+subject texts glue to the same string) through match and extract_regex_group, and sequences with 0/1/2/7 more distinct patterns than a cache of 2/3/16/64 holds, each revisited; five big patterns (\\w{30}, \\p{L}{60}, ..) under cache sizes 0/1/3/64; non-trivial = the compared forms differ textually and the value is not nothing; distinct by construction",
         explanation: "differential inside the implementation (same run, several selections; or the rows kept / ordered / grouped / produced versus the values the same expression has as a selection) and, for the regex cache, against the regex crate called directly",
         assumptions: COMMON_ASSUMPTIONS.to_vec(),
-        guards: vec!["more-patterns-than-the-cache-holds", "alias-with-value", "filter-kept-and-dropped", "sort-reordered", "group-two-keys", "split-produced-rows", "comma-after-variable", "dot-sugar", "cache-eviction", "invalid-pattern", "macro-position", "variable-position"],
+        guards: vec!["big-patterns", "hundreds-of-rows-in-every-position", "more-patterns-than-the-cache-holds", "alias-with-value", "filter-kept-and-dropped", "sort-reordered", "group-two-keys", "split-produced-rows", "comma-after-variable", "dot-sugar", "cache-eviction", "invalid-pattern", "macro-position", "variable-position"],
         budget_s: (100, 1800),
         single_worker: false,
         run,
@@ -156,7 +156,13 @@ fn position_part(ctx: &mut Ctx) {
             if after_split {
                 base.push("--split-by=.rows".into());
             }
-            for idx in &seqs {
+            // hundreds of records for the expressions that go through variables and macros (state kept between
+            // records in those rarely used paths); most records make the macro yield nothing
+            let long: Vec<Vec<usize>> = if [32usize, 36, 37, 38, 40].contains(&ei) { vec![(0..700).map(|i| if i % 9 == 4 { i % 3 } else { 3 + i % 2 }).collect()] } else { vec![] };
+            if !long.is_empty() {
+                ctx.guard("hundreds-of-rows-in-every-position");
+            }
+            for idx in seqs.iter().chain(long.iter()) {
                 let input = seq_input(idx, after_split);
                 let recs: Vec<V> = idx.iter().map(|i| json::parse_str(RECS[*i])).collect();
                 // values of the expression as a selection
@@ -582,6 +588,42 @@ fn cache_threshold_part(ctx: &mut Ctx) {
                     format!("row {first} = {}", expected.get(first).map(json::to_text).unwrap_or_default()),
                     format!("row {first} = {}", rows.get(first).map(json::to_text).unwrap_or_default()),
                 );
+            }
+        }
+    }
+    // big patterns (compiled size well above a megabyte is legal: the default limit of the regex crate is 10 MiB):
+    // the answer must not depend on whether the pattern went through the cache
+    if ctx.mine() {
+        let pats = ["\\\\w{30}", "\\\\p{L}{60}", "[\\\\w.]{1,64}@\\\\w{1,40}", "(\\\\d{1,50}[a-z]{1,50}){3}", "\\\\w{300}"];
+        let subjects: Vec<String> = vec!["abcdefghijklmnopqrstuvwxyzabcdefgh".to_string(), "\u{e9}".repeat(70), "first.last@example".to_string(), "12ab34cd56ef".to_string(), "w".repeat(299)];
+        let mut input = String::new();
+        let mut expected: Vec<V> = Vec::new();
+        for (pi, pt) in pats.iter().enumerate() {
+            for s in subjects.iter().cloned().chain([String::new()]) {
+                let real = pt.replace("\\\\", "\\");
+                input.push_str(&format!("{{\"s\":\"{s}\",\"p\":\"{pt}\"}}\n"));
+                let mut m: Vec<(String, V)> = Vec::new();
+                if let Ok(re) = regex::Regex::new(&real) {
+                    m.push(("m".into(), V::Bool(re.is_match(&s))));
+                    if let Some(g) = re.captures(&s).and_then(|c| c.get(0)) {
+                        m.push(("w".into(), V::s(g.as_str())));
+                    }
+                }
+                let _ = pi;
+                expected.push(V::Obj(m));
+            }
+        }
+        for size in ["0", "1", "3", "64"] {
+            let case = Case::owned(vec![format!("--regular-expression-cache-size={size}"), "--utf8-strings".into(), "--select=(match .s .p)=m".into(), "--select=(extract_regex_group .s .p 0)=w".into()], input.clone().into_bytes());
+            let obs = ctx.run(&case);
+            ctx.case_done();
+            ctx.trace_validated();
+            ctx.nontrivial();
+            ctx.guard("big-patterns");
+            let rows = json::parse_rows(&obs.stdout, b"\n").unwrap_or_default();
+            if !obs.res.is_ok() || rows != expected {
+                let first = rows.iter().zip(expected.iter()).position(|(a, b)| a != b).unwrap_or(rows.len().min(expected.len()));
+                ctx.violation("regex-result-depends-on-the-cache", &format!("cache-size {size} big patterns"), &[case.clone()], format!("row {first} = {}", expected.get(first).map(json::to_text).unwrap_or_default()), format!("row {first} = {}", rows.get(first).map(json::to_text).unwrap_or_default()));
             }
         }
     }
